@@ -1,0 +1,8 @@
+//go:build verif
+
+package memory
+
+// VerifState exposes the sizes of the stacks for verification harnesses.
+func (m *Type) VerifState() (sp, frames, closures, stackLen int) {
+	return m.sp, len(m.fp) / 2, len(m.closure), len(m.stack)
+}
